@@ -148,7 +148,26 @@ def excluded(patterns: "list[str]", p: str) -> bool:
     return pathspec.PathSpec.from_lines(pathspec.patterns.GitWildMatchPattern, patterns).match_file(p)
 
 
-@spec
+@spec(axioms_only=True)
+def spec_excl(spec: "ref:PathSpec", p: str) -> bool:
+    """the decision of a compiled PathSpec for a path: a function of the object and the path (T-LIB)"""
+    return spec.match_file(p)
+
+
+@spec(opaque=True)
 def stem(name: str) -> str:
     """a file name without its last extension"""
     return ".".join(name.split(".")[:-1])
+
+
+@spec(axioms_only=True)
+def fs_scandir(p: str) -> "list[ref:DirEntry]":
+    """the entries of directory p (T-OS: a function of the path while the run lasts)"""
+    import os
+    return sorted(os.scandir(p), key=lambda e: e.path)
+
+
+@spec(axioms_only=True)
+def str_le(a: str, b: str) -> bool:
+    """Python's str ordering (code points); uninterpreted in proofs: only 'sorted() returns an ordered list' is used"""
+    return a <= b
